@@ -1,7 +1,10 @@
 #!/bin/bash
 # Builds the verification harness offline from files on disk only.
 set -e
-cd "$(dirname "$0")/harness"
+HERE="$(cd "$(dirname "$0")" && pwd)"
 export CARGO_NET_OFFLINE=true
+cd "$HERE/harness"
 cargo build --release --offline
+# the unmodified totalmapper binary (guard off) for the end-to-end part of C16
+cargo build --release --offline --manifest-path /repo/Cargo.toml --target-dir "$HERE/target-repo" || true
 echo "setup ok"
